@@ -594,3 +594,73 @@ def m13(ctx):
     if not obs:
         raise AnalysisError("GitStore.config: no ConfigParser.read_string/read_file call found")
     return obs
+
+
+@rule("C15", "M14", floor=1, kind="S",
+      desc="every acknowledged change of the metadata file is saved: FileBasedCollectionMetadata._save hands the parser to the "
+           "save callback on every path - a shortcut for an 'empty' configuration acknowledges the removal of the last "
+           "property without storing it, and the old value keeps being served")
+def m14(ctx):
+    fi = ctx.own_method("xandikos.store.config.FileBasedCollectionMetadata", "_save")
+    cfg = ctx.cfg(fi)
+    calls = [n for n in cfg.stmt_nodes() for c in n.calls() if (dotted(c.func) or "").startswith("self._save") or (dotted(c.func) or "") == "self._save_cb"]
+    if not calls:
+        raise AnalysisError("FileBasedCollectionMetadata._save: call of the save callback not found")
+    blocked = [(c, m, l) for c in calls for m, l in c.succ if l != "exc"]
+    # 'no callback configured' (an in-memory metadata object) is the one excuse: the side of a test of the callback itself
+    # on which it is absent
+    for t in cfg.nodes:
+        if t.kind != "test":
+            continue
+        e, neg = t.ast, False
+        if isinstance(e, ast.UnaryOp) and isinstance(e.op, ast.Not):
+            e, neg = e.operand, True
+        absent_label = None
+        if isinstance(e, ast.Compare) and len(e.ops) == 1 and isinstance(e.left, ast.Attribute) and e.left.attr == "_save_cb" \
+                and isinstance(e.comparators[0], ast.Constant) and e.comparators[0].value is None:
+            absent_label = "t" if isinstance(e.ops[0], ast.Is) else "f"
+        elif isinstance(e, ast.Attribute) and e.attr == "_save_cb":
+            absent_label = "f"
+        if absent_label is not None:
+            if neg:
+                absent_label = "f" if absent_label == "t" else "t"
+            blocked.extend((t, m, l) for m, l in t.succ if l == absent_label)
+    r = cfg.reachable([cfg.entry], block_edges=blocked, follow_exc=False)
+    ok = cfg.exit.id not in r
+    return [ctx.ob(ok, fi.qualname, fi.where, "_save always reaches the save callback", "every normal path calls the callback",
+                   "FileBasedCollectionMetadata._save can return without calling the save callback: the setter that called it answers "
+                   "success (PROPPATCH 200) although nothing was written, and PROPFIND keeps returning the old value, also after a restart")]
+
+
+@rule("C15", "M15", floor=5, kind="S",
+      desc="a value that was sent is stored: in the set_value of every settable property the resource setter receives None "
+           "(= remove) only where the request element is None - never because the value is falsy ('0' parsed to 0, an empty "
+           "string), which would turn a set into a removal that is answered with success")
+def m15(ctx):
+    obs = []
+    for pq, _ in SETTABLE:
+        fi = ctx.home_method(pq, "set_value")
+        cfg = ctx.cfg(fi)
+        du = DefUse(cfg)
+        el = fi.params[3] if len(fi.params) > 3 else "el"
+        reflective = {id(c) for _nm, c in _resource_calls(fi, "set_", ctx.P.cls(pq))}     # also getattr(resource, self.<attr>)(...)
+        for n in cfg.stmt_nodes():
+            for c in n.calls():
+                if not ((isinstance(c.func, ast.Attribute) and c.func.attr.startswith("set_") or id(c) in reflective) and c.args):
+                    continue
+                bad = None
+                for o in origins(du, n, c.args[0]):
+                    if o.is_none():
+                        for cond in getattr(o, "conds", []):
+                            t = cond[0]
+                            t = t.operand if isinstance(t, ast.UnaryOp) and isinstance(t.op, ast.Not) else t
+                            if isinstance(t, (ast.Name, ast.Attribute)) and dotted(t) != el:
+                                bad = t
+                obs.append(ctx.ob(bad is None, fi.qualname, "%s:%d" % (fi.module.rel, n.lineno), "None is forwarded only for a missing element",
+                                  "%s" % src(c)[:60],
+                                  "%s passes None to `%s` whenever `%s` is falsy: a value such as 0 (or an empty text) that the client set is turned "
+                                  "into a removal - PROPPATCH answers 200 and PROPFIND then says the property does not exist"
+                                  % (fi.short, src(c.func), src(bad) if bad is not None else "")))
+    if len(obs) < 5:
+        raise AnalysisError("only %d setter calls found in the set_value methods of the settable properties" % len(obs))
+    return obs
